@@ -161,5 +161,7 @@ SIBLINGS = [
 # Domain on which the *closed form* (and its symmetry / zero-self consequences) is compared when it is wider
 # than the domain of the axiom table: Hassanat's published definition is piecewise in the sign of min(x_i, y_i)
 # and covers all reals; the definedness / finiteness obligations stay on the table's domain (huge negative
-# coordinates absorb the constant 1 and are not claimed).
-FORM_DOMAIN = {"hassanat": "R"}
+# coordinates absorb the constant 1 and are not claimed).  Canberra's published form carries |x_i| + |y_i| precisely so
+# that it is defined for coordinates of either sign (and the code spells both absolute values): the form is compared
+# over all reals, so that |x_i + y_i| - equal on non-negative data only - is not the same function.
+FORM_DOMAIN = {"hassanat": "R", "canberra": "R"}
